@@ -154,6 +154,17 @@ class Gen:
         bn = f'b{bi}'; bi += 1
         body = []
         cond = None
+        # a wide decoder: one block with a long if/elif chain (schedulers weigh blocks by their number of branches)
+        if len(g) == 1 and g[0][2] is None and g[0][0] == f's.{n}' and rng.random() < 0.12:
+          sel = [a for a in s.avail if a[2] is True and a[1] >= 5]
+          if sel:
+            W_ = g[0][1]; sx = rng.choice(sel)[0]; nbr = rng.randrange(18, 27)
+            s.lines += ['@update', f'def {bn}():']
+            for q_ in range(nbr):
+              s.lines += [f'  {"if" if q_ == 0 else "elif"} {sx}[0:5] == {q_}:', f'    s.{n} @= {s.src_expr(W_)}']
+            s.lines += ['  else:', f'    s.{n} @= {s.src_expr(W_)}']
+            s.blocks.append(bn); s.features.add('many-branch-decoder')
+            continue
         # a block whose body is only a for loop (bit-by-bit copy/xor): schedulers classify such blocks specially
         if len(g) == 1 and g[0][2] is None and g[0][0] == f's.{n}' and 2 <= g[0][1] <= 16 and rng.random() < 0.2:
           W_ = g[0][1]
